@@ -39,7 +39,11 @@ class Ctx:
         return self.tier != "thorough"
 
     def cleanup(self):
+        if os.environ.get("VERIF_KEEP"):
+            log("[keep] work dir " + self.work)
+            return
         shutil.rmtree(self.work, ignore_errors=True)
+        vlib.cleanup_private()
 
     # -- model -------------------------------------------------------------
     def model(self, name, consts, invariants=(), properties=(), spec="Spec", kf=None, timeout=1200, workers=None, constraint=None):
@@ -79,6 +83,43 @@ class Ctx:
         self.model_runs.append(dict(name=name + "/export", states=stats["states"], transitions=stats["transitions"],
                                     consts=consts, schedules=len(recs)))
         self.run_validate(recs, tag=name, drain=drain)
+
+    def export_tamper_validate(self, name, consts, fam, per_msg=12, allpos=False, maxsched=200, timeout=1200, replace=False):
+        """Schedules exported by TLC, with attacker steps inserted before every delivery: copies of the
+        message in flight, each tampered in one field/byte/cut (TamperAll), are delivered first; with
+        replace=True single tampered forms replace the genuine message (one run per choice)."""
+        import random
+        stats, scheds = vlib.export_schedules(name, consts, self.kf, workers=vlib.NCPU, timeout=timeout)
+        self.states += stats["states"]
+        self.transitions += stats["transitions"]
+        rnd = random.Random(self.seed)
+        if len(scheds) > maxsched:
+            scheds = rnd.sample(scheds, maxsched)
+            self.exhaustive = False
+        recs = []
+        for i, steps in enumerate(scheds):
+            if not replace:
+                out = []
+                for st in steps:
+                    if st["a"] in ("Deliver", "DeliverAt", "DupAt"):
+                        t = dict(a="TamperAll", p=st["p"], t=per_msg, z=2, i=i)
+                        if allpos:
+                            t["q"] = True
+                        out.append(t)
+                    out.append(st)
+                recs.append(vlib.sched_record(out, consts, "%s-t%d" % (name, i), fam))
+            else:
+                dels = [k for k, st in enumerate(steps) if st["a"] == "Deliver"]
+                for k in dels:
+                    for v in range(per_msg):
+                        out = list(steps)
+                        out[k] = dict(a="TamperOne", p=steps[k]["p"], i=rnd.randrange(1000))
+                        recs.append(vlib.sched_record(out, consts, "%s-r%d-%d-%d" % (name, i, k, v), fam))
+        if replace and len(recs) > maxsched * 4:
+            recs = rnd.sample(recs, maxsched * 4)
+        self.model_runs.append(dict(name=name + "/tamper", states=stats["states"], transitions=stats["transitions"],
+                                    consts=consts, schedules=len(recs), per_message=per_msg, all_positions=allpos, replace=replace))
+        self.run_validate(recs, tag=name + ("-rep" if replace else "-tam"), drain=True)
 
     def run_validate(self, recs, tag, drain=False, extra=()):
         if not recs:
@@ -122,13 +163,33 @@ class Ctx:
         self.exhaustive = False
         self.run_validate(recs, tag=tag, drain=True)
 
+    def attack_catalogue(self, kind):
+        """Scenarios with an active attacker E (own DSA key, own DH exponents, messages built by the
+        independent reference): impersonation, degenerate DH values, cross-session replay, forgeries
+        with disclosed MAC keys. Executed on the real code, validated like every other trace."""
+        d = os.path.join(self.work, "atk-" + kind)
+        os.makedirs(d, exist_ok=True)
+        tf = os.path.join(d, "attacks.trace")
+        out = vlib.run_driver(["attacks", "-kind", kind, "-out", tf, "-seed", str(self.seed)] + ([] if self.quick() else ["-deep"]))
+        n = 0
+        for line in out.splitlines():
+            if line.startswith("RUN"):
+                n = int(line.split("schedules=")[1].split()[0])
+        self.sched_of_trace[tf] = None
+        reports, lines = vlib.validate_traces([tf], self.kf)
+        self.events += lines
+        self.traces_validated += n
+        self.schedules += n
+        self.classify(reports)
+
     # -- classification ------------------------------------------------------
     def classify(self, reports):
         for r in reports:
             if r["kind"] == "PROP":
                 if r["prop"] != self.pid:
                     continue
-                self.add_finding(dict(kind="PROP", reason=r["reason"], trace=r["trace"], line=r["line"], ev=r["ev"], p=r["p"]))
+                self.add_finding(dict(kind="PROP", reason=r["reason"], trace=r["trace"], line=r["line"], ev=r["ev"], p=r["p"],
+                                      changed=sorted(r.get("changed") or []), atk=r.get("atk", "")))
             else:
                 obs = sorted(set(r["fields"]) & OBSERVABLES)
                 if obs:
@@ -177,8 +238,16 @@ class Ctx:
             print("KNOWN-FINDING: property=%s %s: %s (%d occurrences in this run)" % (self.pid, kid, e["what"], len(hits)))
         seen = set()
         nviol = 0
+        if os.environ.get("VERIF_VERBOSE"):
+            import collections
+            cnt = collections.Counter()
+            for f in self.findings:
+                m = (f.get("run") or [{}])[f["idx"]].get("m", {}) if f.get("run") and f.get("idx") is not None else {}
+                cnt[(f["kind"], f["reason"][:60], tuple(f.get("changed") or f.get("fields") or []), f.get("atk", ""), m.get("t"), m.get("why", ""))] += 1
+            for k, v in sorted(cnt.items(), key=str):
+                print("  FINDING x%d %s" % (v, k))
         for f in self.findings:
-            key = (f["kind"], f["reason"], f.get("ev"))
+            key = (f["kind"], f["reason"], f.get("ev"), tuple(f.get("changed") or []))
             if key in seen:
                 continue
             seen.add(key)
@@ -257,6 +326,7 @@ def c04(ctx):
         ctx.export_validate("c04x-v3", dict(DATA33, MaxSend=2, MaxFlight=2, MaxTick=1), "fifo-data", drain=True)
         ctx.export_validate("c04x-v2", dict(PolA=1, PolB=3, Setup="ake", MaxSend=2, MaxFlight=2), "fifo-data", drain=True)
         ctx.random_validate("data", 48, 60)
+        ctx.random_validate("fragsweep", 16, 30)
     else:
         ctx.model("c04-v3-5x4", dict(DATA33, MaxSend=5, MaxFlight=4), inv)
         ctx.model("c04-v2-4x4", dict(PolA=1, PolB=1, Setup="ake", MaxSend=4, MaxFlight=4), inv)
@@ -264,6 +334,7 @@ def c04(ctx):
         ctx.export_validate("c04x-v3", dict(DATA33, MaxSend=3, MaxFlight=3, MaxTick=1, MaxExtra=1), "fifo-data", drain=True)
         ctx.export_validate("c04x-v2", dict(PolA=1, PolB=3, Setup="ake", MaxSend=3, MaxFlight=3), "fifo-data", drain=True)
         ctx.random_validate("data", 400, 200)
+        ctx.random_validate("fragsweep", 64, 120)
 
 
 def c05(ctx):
@@ -369,7 +440,49 @@ def c07(ctx):
     ctx.random_validate("akestart", 64 if ctx.quick() else 640, 30)
 
 
+def c06(ctx):
+    q = ctx.quick()
+    # the rejected-is-stutter property of the specification itself
+    ctx.model("c06-model", dict(DATA33, MaxSend=2, MaxFlight=2), ["NoHonestReject"])
+    for name, (pol, prelude) in [(k, STARTS[k]) for k in (("queryA", "both") if q else ("queryA", "queryB-v2", "both", "both-v2", "tag", "req", "err", "refresh"))]:
+        c = dict(pol, Prelude=prelude, MaxSend=0, MaxFlight=4)
+        ctx.export_tamper_validate("c06-ake-" + name, c, "ake", per_msg=16 if q else 0, allpos=not q, maxsched=8 if q else 40)
+        ctx.export_tamper_validate("c06-aker-" + name, c, "none", per_msg=4 if q else 12, maxsched=6 if q else 30, replace=True)
+    ctx.export_tamper_validate("c06-data", dict(DATA33, MaxSend=2, MaxFlight=2, MaxTick=1), "fifo-data", per_msg=10 if q else 0,
+                               allpos=not q, maxsched=60 if q else 400)
+    ctx.export_tamper_validate("c06-data-v2", dict(PolA=1, PolB=1, Setup="ake", MaxSend=2, MaxFlight=2), "fifo-data", per_msg=10 if q else 0,
+                               allpos=not q, maxsched=30 if q else 200)
+    ctx.export_tamper_validate("c06-life", dict(PolA=7, PolB=3, MaxSend=1, MaxFlight=3, MaxQuery=1, MaxEnd=1), "none",
+                               per_msg=6 if q else 24, maxsched=60 if q else 400)
+
+
+def c02(ctx):
+    q = ctx.quick()
+    ctx.model("c02-bag", dict(DATA33, NetMode="bag", MaxSend=2, MaxFlight=2, MaxDup=2, MaxDrop=1), ["DeliveredAuthentic", "AtMostOnce"])
+    ctx.export_tamper_validate("c02-data", dict(DATA33, MaxSend=2, MaxFlight=2, MaxTick=1, MaxExtra=1), "fifo-data", per_msg=14 if q else 0,
+                               allpos=not q, maxsched=80 if q else 600)
+    ctx.export_tamper_validate("c02-data-v2", dict(PolA=1, PolB=1, Setup="ake", MaxSend=2, MaxFlight=2), "fifo-data", per_msg=14 if q else 0,
+                               allpos=not q, maxsched=40 if q else 300)
+    ctx.export_tamper_validate("c02-rep", dict(DATA33, MaxSend=2, MaxFlight=2), "none", per_msg=4 if q else 16, maxsched=20 if q else 150, replace=True)
+    ctx.attack_catalogue("data")
+
+
+def c01(ctx):
+    q = ctx.quick()
+    for name in (("queryA", "both") if q else ("queryA", "queryB-v2", "both", "both-v2", "tag", "req", "refresh")):
+        pol, prelude = STARTS[name]
+        c = dict(pol, Prelude=prelude, MaxSend=0, MaxFlight=4)
+        ctx.model("c01-" + name, c, ["AuthInv", "AgreeInv"])
+        ctx.export_tamper_validate("c01-ake-" + name, c, "ake", per_msg=24 if q else 0, allpos=not q, maxsched=8 if q else 40)
+        ctx.export_tamper_validate("c01-aker-" + name, c, "none", per_msg=6 if q else 20, maxsched=6 if q else 30, replace=True)
+    ctx.model("c01-bag", dict(PolA=3, PolB=3, Prelude=[dict(a="Query", p="A")], NetMode="bag", MaxFlight=4, MaxDup=2, MaxDrop=1, MaxQuery=1), ["AuthInv", "AgreeInv"])
+    ctx.attack_catalogue("ake")
+
+
 TABLE = {
+    "C01": c01,
+    "C02": c02,
+    "C06": c06,
     "C03": c03,
     "C04": c04,
     "C05": c05,
